@@ -852,6 +852,9 @@ def describe(case, obs):
         keys.append("interrupt-delivered")
     if case.get("num") == "fraction":
         keys.append("num-fraction")
+    if any((i[0] == "timeout" and Fraction(i[2]).denominator > 64) for i in walk_instrs(case)) or \
+            any(it[0] == "run_num" and Fraction(it[1]).denominator > 64 for it in case["plan"]):
+        keys.append("fine-dyadic-times")
     return keys
 
 
@@ -862,6 +865,9 @@ DEFAULT_KNOBS = {
     "procs": (1, 8),                 # number of initial processes
     "body": (1, 7),                  # actions per process body
     "delays": ["0", "0", "1", "1", "1", "2", "1/2", "1/2", "1/4", "3/2", "1/8", "3"],
+    # dyadic values that are exact in binary64 but need more than 9 decimals (a rounding of due times shows at once)
+    "fine_delays": ["1/1024", "3/4096", "1/65536", "1025/1024", "4099/4096", "65537/65536", "5/65536", "2049/2048"],
+    "p_fine": 0.12,                  # probability that a delay / stop point is drawn from (or shifted by) fine_delays
     "t0": ["0", "0", "0", "1", "1/2", "-1", "5/4"],
     "n_shared": (0, 4),              # shared plain events
     "n_shared_timeouts": (0, 2),     # timeouts created at module level, several waiters
@@ -870,6 +876,8 @@ DEFAULT_KNOBS = {
     "w_timeout": 6, "w_wait_shared": 3, "w_trigger": 3, "w_fail": 1.5, "w_spawn": 2, "w_join": 2,
     "w_interrupt": 2.5, "w_cond": 2.5, "w_query": 0.7, "w_log": 0.5, "w_double_trigger": 0.5,
     "w_neg_delay": 0.4, "w_bad_yield": 0.05, "w_interrupt_self": 0.3, "w_zero_burst": 1.0,
+    "w_fine_pair": 0.8,              # two timeouts due a tiny amount apart, created in the opposite order of their due times
+    "w_intr_then_spawn": 0.8,        # interrupt a process, then start a new one in the same instant (order inside the urgent class)
     "p_catch": 0.6,                  # a yield catches (vs propagates) a received exception
     "p_retry": 0.25,                 # ... or re-waits after an Interrupt
     "p_end_raise": 0.15, "p_end_return": 0.4,
@@ -919,6 +927,8 @@ class _Gen:
         return self.probe
 
     def delay(self):
+        if self.rng.random() < self.k["p_fine"]:
+            return self.rng.choice(self.k["fine_delays"])
         return self.rng.choice(self.k["delays"])
 
     def value(self, locals_=()):
@@ -1016,7 +1026,8 @@ class _Gen:
                    ("fail", k["w_fail"]), ("spawn", k["w_spawn"]), ("join", k["w_join"]), ("interrupt", k["w_interrupt"]),
                    ("cond", k["w_cond"]), ("query", k["w_query"]), ("log", k["w_log"]),
                    ("double", k["w_double_trigger"]), ("neg", k["w_neg_delay"]), ("bad_yield", k["w_bad_yield"]),
-                   ("intr_self", k["w_interrupt_self"]), ("burst", k["w_zero_burst"])]
+                   ("intr_self", k["w_interrupt_self"]), ("burst", k["w_zero_burst"]),
+                   ("fine_pair", k["w_fine_pair"]), ("intr_spawn", k["w_intr_then_spawn"])]
         for _ in range(rng.randint(*k["body"])):
             a = wchoice(rng, actions)
             if a == "timeout":
@@ -1035,6 +1046,34 @@ class _Gen:
                     evs.append(l)
                     ls.append(l)
                 do_yield(["L", rng.choice(ls)])
+            elif a == "fine_pair":
+                base = Fraction(rng.choice(["0", "1", "1/2", "1/8", "3/2"]))
+                eps = Fraction(rng.choice(k["fine_delays"][:3] + ["5/65536"]))
+                la, lb = newl(), newl()
+                out.append(["timeout", ["L", la], qs(base + eps), self.value()])     # due later, created first
+                self.maybe_probe(out, ["L", la])
+                out.append(["timeout", ["L", lb], qs(base), self.value()])
+                self.maybe_probe(out, ["L", lb])
+                evs.extend([la, lb])
+                if rng.random() < 0.5:
+                    do_yield(["L", la])
+                else:
+                    lc = newl()
+                    out.append(["cond", ["L", lc], rng.random() < 0.5, [["L", la], ["L", lb]]])
+                    self.maybe_probe(out, ["L", lc])
+                    evs.append(lc)
+                    do_yield(["L", lc])
+            elif a == "intr_spawn":
+                c = [["L", p] for p in procs] + [["G", g] for g in self.proc_slots]
+                if c and self.child_range(code_index):
+                    out.append(["interrupt", rng.choice(c), self.value()])
+                    l = newl()
+                    out.append(["spawn", ["L", l], rng.choice(self.child_range(code_index)), self.value()])
+                    self.maybe_probe(out, ["L", l])
+                    evs.append(l)
+                    procs.append(l)
+                    if rng.random() < 0.5:
+                        out.append(["interrupt", rng.choice(c + [["L", l]]), self.value()])
             elif a == "wait_shared":
                 c = self.shared + self.shared_to + [g for g in self.proc_slots]
                 if c:
@@ -1164,6 +1203,8 @@ class _Gen:
         t = Fraction(0)
         for _ in range(self.rng.randint(1, 3)):
             t += Fraction(self.rng.choice([d for d in self.k["delays"] if not d.startswith("-")]))
+        if self.rng.random() < self.k["p_fine"]:
+            t += Fraction(self.rng.choice(self.k["fine_delays"]))
         return t
 
     def plan(self):
